@@ -107,6 +107,9 @@ def gen_plan(seed, tier, index=0, avoid=()):
         "overshoot": rng.choice((0.0, 1e-6, 1e-3)),
         "nts": nts,
         "split": split,
+        # fault short_read: the kernel hands out fewer bytes than asked for and available (read ordinal -> cap)
+        "short_reads": ({str(rng.randint(1, 30)): rng.choice((1, 2, 3, 5)) for _ in range(rng.randint(1, 4))}
+                        if faulty and rng.random() < 0.2 else {}),
     }
     nmain = rng.choice((3, 6, 10, 20, rng.randint(1, 60 if tier == "quick" else 150)))
     main = []
@@ -237,6 +240,11 @@ def valid(p):
 
 def _simp(p):
     cfg = p["cfg"]
+    if cfg.get("short_reads"):
+        for k in list(cfg["short_reads"]):
+            q = planmod.clone(p)
+            del q["cfg"]["short_reads"][k]
+            yield q
     for key, simple in (("tick", 0.0), ("time_cost", 0.0), ("overshoot", 0.0), ("pipe_cap", 65536), ("dts", False),
                         ("read_size", 1024), ("sigint_handler", "default"), ("sigint_event", False), ("keynames", "bytes")):
         if cfg[key] != simple:
@@ -431,6 +439,8 @@ def _execute(p, s, res):
             world.probe("char_cut_by_read")
             world.fault("read_boundary_split")
     kernel.on_tty_read = on_tty_read
+    if cfg.get("short_reads"):
+        kernel.read_faults[s.fd] = {int(k): ("cap", v) for k, v in cfg["short_reads"].items()}
 
     def app_handler(signum, frame):
         world.log.add("app_sigint_handler")
@@ -571,8 +581,12 @@ def _execute(p, s, res):
         rest = bytes(M.entered[M.pos:M.pos + 16])
         for c in sorted(set(cands), key=len, reverse=True):
             if c and M.entered[M.pos:M.pos + len(c)] == c:
+                was_aligned = M.pos in M.entered_bounds
                 M.pos += len(c)
-                if in_paste and not cfg["split"] and M.pos not in M.entered_bounds:
+                # (a paste that starts in the middle of a key whose beginning an earlier, non-paste request
+                # already returned -- possible after a short read -- re-synchronises at the next key end)
+                if in_paste and was_aligned and not cfg["split"] and not world.faults.get("short_read") \
+                        and M.pos not in M.entered_bounds:
                     # keypresses arrive whole and the paste loop refills before its buffer runs out:
                     # inside a paste every returned key is a typed key
                     _violate(res, "paste_keypress_broken_up_or_merged", si,
@@ -591,6 +605,7 @@ def _execute(p, s, res):
         sched_pending = bool(M.sched)
         M.req_reads = []
         pos0 = M.pos
+        short0 = world.faults.get("short_read", 0)
         world.main_waited = False
         stale = sum(1 for fd in ts_rfds if kernel.readable(fd))
         res["states"].add("%d%d|%s|%d%d|%d|%s|%d" % (
@@ -649,7 +664,9 @@ def _execute(p, s, res):
                     return
             if thr is None or not any(n > thr for n in reads):
                 _violate(res, "paste_without_burst", si, {"reads": reads[:4], "paste_threshold": thr})
-            if M.pos != len(M.entered) and not cfg["split"]:
+            if M.pos != len(M.entered) and not cfg["split"] and not world.faults.get("short_read"):
+                # (a short read is arrival fragmentation by another name: once one has happened keys may be cut
+                # like in the split_arrival slice, and only the conservation law is demanded of pastes)
                 _violate(res, "paste_does_not_cover_burst", si, {"covered_to": M.pos, "entered": len(M.entered)})
         elif isinstance(r, (str, bytes)):
             if not judge_key(r, si, False):
